@@ -55,6 +55,49 @@ def fam_eq_special():
                   lambda res, i, t: res.__setitem__(f"sp{i}", SPECIAL_VALUES[i % len(SPECIAL_VALUES)] if t else "other"))
 
 
+def fam_eq_fixed(v):
+    """value-eq with ONE given literal whatever its position (the positional family above shows each literal in one position only)."""
+    return Family("value-eq-special", "cmp", lambda i: {"type": "value", "key": f"sp{i}", "op": "eq", "value": v}, lambda res, i, t: res.__setitem__(f"sp{i}", v if t else "other"))
+
+
+def fam_in_fixed(members, negate=False):
+    if negate:
+        return Family("value-ni-special", "not", lambda i: {"type": "value", "key": f"ms{i}", "op": "ni", "value": members}, lambda res, i, t: res.__setitem__(f"ms{i}", "none-of-them" if t else members[0]))
+    return Family("value-in-special", "call", lambda i: {"type": "value", "key": f"js{i}", "op": "in", "value": members}, lambda res, i, t: res.__setitem__(f"js{i}", members[0] if t else "none-of-them"))
+
+
+MORE_SPECIAL_VALUES = ["\\", "dir\\sub\\", 'say \\"hi\\"', "tab\tnl\n", "'", '"', "\\'", "a\\\\b\\\\"]
+
+
+def special_literal_positions(h, ctx):
+    """Every special literal (quotes, brackets, operators, a backslash at the end) as the FIRST and as the LAST clause under every
+    connective, alone and nested in a list / and / not: whether the translator's scan for a top-level operator survives the literal
+    depends on what follows it in the emitted text."""
+    L = ("leaf",)
+    plain, other = fam_eq(), fam_notbool()
+    k = 0
+    specials = [fam_eq_fixed(v) for v in SPECIAL_VALUES + MORE_SPECIAL_VALUES] + [fam_in_fixed(m) for m in IN_SPECIAL] + [fam_in_fixed(m, True) for m in IN_SPECIAL[::3]]
+    for sp in specials:
+        for kind in ("list", "and", "or", "not"):
+            placements = ((None, None), ("list", True), ("list", False), ("and", True), ("not", True), ("not", False), ("or", False))
+            for outer, inner_last in placements if ctx.thorough else placements[:3] + placements[4:5]:
+                for first in (True, False):
+                    k += 1
+                    if not ctx.mine(k):
+                        continue
+                    inner = (kind, [L, L])
+                    fams_inner = [sp, other] if first else [other, sp]
+                    if outer is None:
+                        shape, fams = inner, fams_inner
+                    elif inner_last:
+                        shape, fams = (outer, [L, inner]), [plain] + fams_inner
+                    else:
+                        shape, fams = (outer, [inner, L]), fams_inner + [plain]
+                    h.acc.hook("special-literal-position")
+                    check_tree(h, shape, fams, "special-literal")
+    h.acc.exhaustive.append("%d special literals x 4 connectives x first/last clause x alone or nested (before / after a sibling) in list/and/not/or" % len(specials))
+
+
 def fam_ne():
     return Family("value-gt", "cmp", lambda i: {"type": "value", "key": f"n{i}", "op": "gt", "value": 5}, lambda res, i, t: res.__setitem__(f"n{i}", 9 if t else 1))
 
@@ -414,6 +457,7 @@ def run(ctx):
     if complete:
         acc.exhaustive.append(f"every filter tree with at most {maxconn} connective nodes (list/and/or/not, 1-3 children, <= 5 clauses) x all steering assignments")
     translation_histories(h, ctx)
+    special_literal_positions(h, ctx)
     # every family pair directly under each connective (systematic on clause shapes)
     k = 0
     for kind in ("list", "and", "or", "not"):
